@@ -9,7 +9,7 @@
    periodic chain are modelled (Model/Problems.v) and tied to /repo by exact comparison of the produced matrices and by
    combinatorial oracles on the implementation (harness/props/c10.py); no theorem about their ground states is claimed. *)
 From QV.Model Require Import Base Matrix Arith Expr Extrema Sat PCBO Logic Convert PCSO Problems.
-From QV.Proofs Require Import BaseProofs KeyProofs ArithProofs PenaltyArith PCBOProofs ProblemsProofs SetCoverProofs ChainPbc GraphPart.
+From QV.Proofs Require Import BaseProofs KeyProofs ArithProofs PenaltyArith PCBOProofs ProblemsProofs SetCoverProofs ChainPbc GraphPart JobSeq.
 From Coq Require Import Lia Lqa.
 Open Scope Q_scope.
 
@@ -132,6 +132,34 @@ Theorem C10_gp_ground : forall N h edges A B Hf z, gp_to_quso N edges A B = Ok H
 Proof. exact gp_ground. Qed.
 Print Assumptions C10_gp_ground.
 
+(* ---- JobSequencing (Lucas 6.3), unary and logarithmic slack ----
+   jobs 0..N-1 with integer lengths ls, m workers; x_(j,w) = job j on worker w, the slack variables of worker w >= 1 count how
+   far it is below worker 0.  s_j: number of workers holding job j; L_w: load of worker w; js_res: slack + L_w - L_0. *)
+Theorem C10_js_value : forall lengths m lg M A B Qf, js_to_qubo lengths m lg M A B = Ok Qf ->
+  forall x, boolean_env x ->
+  let N := length lengths in let jobs := js_jobs lengths in let maxM := js_maxM lg M in
+  eval x (tm Qf) == B * L_w m jobs x 0%nat + A * js_pen1 m x jobs + A * js_pen2 m N jobs lg maxM x.
+Proof. exact js_value. Qed.
+Print Assumptions C10_js_value.
+(* A > B * (largest length) and M at least the total length (the class's default M is N * largest): in every ground state each
+   job is on exactly one worker, every worker w >= 1 carries at most worker 0's load (the slack equals the difference), the
+   energy is B * load of worker 0, and no assignment of the jobs has a smaller makespan *)
+Theorem C10_js_ground : forall m ls lg M Lmax A B Qf x, js_to_qubo (map nQ ls) m lg M A B = Ok Qf ->
+  (1 <= m)%nat -> (forall l, In l ls -> (l <= Lmax)%nat) -> (1 <= Lmax)%nat -> (total ls <= M)%nat ->
+  0 < B -> B * nQ Lmax < A ->
+  boolean_env x -> (forall y, boolean_env y -> eval x (tm Qf) <= eval y (tm Qf)) ->
+  let jobs := js_jobs (map nQ ls) in
+  (forall j, (j < length ls)%nat -> s_j m x j == 1)
+  /\ (forall w, (1 <= w < m)%nat -> js_res m (length ls) jobs lg (js_maxM lg M) x w == 0)
+  /\ eval x (tm Qf) == B * L_w m jobs x 0%nat
+  /\ forall a, (forall j, (a j < m)%nat) -> L_w m jobs x 0%nat <= nQ (makespan m ls a).
+Proof. exact js_ground. Qed.
+Print Assumptions C10_js_ground.
+Theorem C10_js_valid : forall N m (xb : label -> bool),
+  js_valid N m xb = true <-> forall j, (j < N)%nat -> length (filter (fun w => xb (js_x m j w)) (seq 0 m)) = 1%nat.
+Proof. exact js_valid_iff. Qed.
+Print Assumptions C10_js_valid.
+
 (* non-vacuity: the path 0-1-2 with A = 2, B = 1 *)
 Example C10_example : exists Qf, vc_to_qubo 3 [(0, 1); (1, 2)]%nat 2 1 = Ok Qf /\ kd Qf = KQuboM /\ (0 < length (tm Qf))%nat.
 Proof. eexists. vm_compute. repeat split. apply Nat.lt_0_succ. Qed.
@@ -159,4 +187,14 @@ Proof.
     + vm_compute. repeat constructor; simpl; intuition congruence.
     + intros u v w [E|[E|[E|[]]]]; injection E as <- <- _; lia.
   - split; [intros u v w [E|[E|[E|[]]]]; injection E as _ _ <-; split; lra| apply gp_balanced_exists].
+Qed.
+
+(* non-vacuity for JobSequencing: lengths 2, 1, 3 on two workers, both slack encodings build; total 6 <= M = 9 *)
+Example C10_example_js :
+  (exists Qf, js_to_qubo (map nQ [2; 1; 3]%nat) 2 false 9 4 1 = Ok Qf /\ (0 < length (tm Qf))%nat)
+  /\ (exists Qf, js_to_qubo (map nQ [2; 1; 3]%nat) 2 true 9 4 1 = Ok Qf /\ (0 < length (tm Qf))%nat)
+  /\ (total [2; 1; 3]%nat <= 9)%nat /\ makespan 2 [2; 1; 3]%nat (fun j => if (j =? 2)%nat then 0%nat else 1%nat) = 3%nat.
+Proof.
+  split; [eexists; split; [vm_compute; reflexivity| vm_compute; lia]|]. split; [eexists; split; [vm_compute; reflexivity| vm_compute; lia]|].
+  split; [vm_compute; lia| vm_compute; reflexivity].
 Qed.
